@@ -2,7 +2,7 @@
 //! against simulated memory, driven by proptest generators and exhaustive sub-sweeps, judged by
 //! independent decoders.  See /verif/DESIGN.md §2.2.
 
-mod decoders;
+use vcommon::decoders;
 mod s1;
 mod shim;
 mod s2;
